@@ -19,9 +19,18 @@ def _payload_slice3d(plot, l, lo, hi):
     c = plot.geo_lo[cn] + (idx[cn] + 0.5) * plot.dx[l][cn]
     A = pp["alpha"] + pp["beta"] * c
     cx, cy = [d for d in range(nd) if d != cn]
-    K = 1000.0 + 37.0 * (idx[cx] >> l) + 0.5 * (idx[cy] >> l)
+    K = k_values(idx[cx] >> l, idx[cy] >> l, pp.get("k_inf"))
     T = plotgen.coded_block(l, lo, hi, 1)[..., 0]
     R = plotgen._payload_random(plot, l, lo, hi)        # one random column per field position
+    if pp.get("r_specials"):
+        # the random field holds a few +-inf, +-1e300 and denormal samples (an infinite sample next to a finite one must
+        # give that infinity, not NaN).  Values within a factor ~1e5 of the largest double are not used: any formula
+        # overflows somewhere up there and the statement does not say where.  NaN is not used either (the reference
+        # marks "no data" with it)
+        rs = np.random.Generator(np.random.PCG64([int(pp["r_specials"]), l] + [int(x) & 0xFFFFFFFF for x in lo]))
+        pick = rs.random(R.shape) < 0.06
+        vals = np.array([np.inf, -np.inf, 1e300, -1e300, 5e-324, np.inf, -1e300])[rs.integers(0, 7, size=R.shape)]
+        R = np.where(pick, vals, R)
     cols = dict(A=A, K=K, T=T)
     return np.stack([cols[f] if f in cols else R[..., i] for i, f in enumerate(plot.fields)], axis=-1)
 
@@ -39,6 +48,10 @@ def slice_specs(draw, tier="quick", min_levels=1, max_cells=4000):
     spec["payload"] = dict(kind="slice3d", cn=cn, seed=draw(st.integers(0, 999)),
                            alpha=draw(st.sampled_from([3.0, -1.25, 0.0, 100.0])),
                            beta=draw(st.sampled_from([2.0, -0.5, 10.0, 1.0])))
+    if draw(st.integers(0, 2 ** 16)) % 3 == 0:
+        spec["payload"]["r_specials"] = draw(st.integers(1, 2 ** 16))
+    if draw(st.integers(0, 2 ** 16)) % 4 == 0:
+        spec["payload"]["k_inf"] = draw(st.integers(1, 10))
     return spec
 
 
@@ -160,11 +173,14 @@ def reference(plot, cn, p, L):
     return dict(lstar=lstar, strict=strict & ~near_finer & (lstar >= 0), allowed=allowed, k0=k0a, k1=k1a, w1=w1a)
 
 
-def reference_values(plot, cn, L, ref, fi):
-    """Interpolated value of field fi at the strict pixels (NaN elsewhere)."""
+def reference_values(plot, cn, L, ref, fi, with_scale=False):
+    """Interpolated value of field fi at the strict pixels (NaN elsewhere); with_scale also returns the larger
+    magnitude of the two bracketing samples (the conditioning of the interpolation) and the on-a-centre mask."""
     cx, cy = [d for d in range(3) if d != cn]
     gs = plot.grid_size(L)
     out = np.full((gs[cx], gs[cy]), np.nan)
+    scale = np.zeros((gs[cx], gs[cy]))
+    on_centre = np.zeros((gs[cx], gs[cy]), bool)
     for l in range(L + 1):
         f = 2 ** (L - l)
         for b, (blo, bhi) in enumerate(plot.levels[l]["boxes"]):
@@ -178,19 +194,41 @@ def reference_values(plot, cn, L, ref, fi):
             if not (blo[cn] <= k0 and k1 <= bhi[cn]):
                 continue        # another box of the same level owns these pixels
             a = np.transpose(plot.box_data(l, b)[..., fi], [cx, cy, cn])
-            v = a[:, :, k0 - blo[cn]] * (1.0 - w1) + a[:, :, k1 - blo[cn]] * w1 if k0 != k1 else a[:, :, k0 - blo[cn]]
+            with np.errstate(all="ignore"):
+                v = a[:, :, k0 - blo[cn]] * (1.0 - w1) + a[:, :, k1 - blo[cn]] * w1 if k0 != k1 else a[:, :, k0 - blo[cn]]
+            sc = np.maximum(np.abs(a[:, :, k0 - blo[cn]]), np.abs(a[:, :, k1 - blo[cn]]))
             for ax in range(2):
                 v = np.repeat(v, f, axis=ax)
+                sc = np.repeat(sc, f, axis=ax)
             cur = out[sl]
             cur[m] = v[m]
             out[sl] = cur
+            cur = scale[sl]
+            cur[m] = sc[m]
+            scale[sl] = cur
+            if k0 == k1:
+                cur = on_centre[sl]
+                cur[m] = True
+                on_centre[sl] = cur
+    if with_scale:
+        return out, scale, on_centre
     return out
 
 
-def k_pattern(l, lo2, hi2):
+def k_values(i0, j0, k_inf=None):
+    """K as a function of the level-0 in-plane indices; with k_inf some columns hold +inf / -inf (a field constant along
+    the normal must come back with exactly those infinities: no arithmetic may turn them into NaN)"""
+    K = 1000.0 + 37.0 * i0 + 0.5 * j0
+    if k_inf:
+        h = (i0 * 7 + j0 * 3 + int(k_inf)) % 11
+        K = np.where(h == 0, np.inf, np.where(h == 1, -np.inf, K))
+    return K
+
+
+def k_pattern(l, lo2, hi2, k_inf=None):
     """K on the in-plane footprint lo2..hi2 (level-l indices along cx, cy)"""
     i, j = np.meshgrid(np.arange(lo2[0], hi2[0] + 1), np.arange(lo2[1], hi2[1] + 1), indexing="ij")
-    return 1000.0 + 37.0 * (i >> l) + 0.5 * (j >> l)
+    return k_values(i >> l, j >> l, k_inf)
 
 
 def level_samples(plot, cn, l, k, fi):
